@@ -8,12 +8,11 @@ HERE = os.path.dirname(os.path.dirname(os.path.abspath(__file__)))
 on_repo = "--repo" in sys.argv
 only = [a for a in sys.argv[1:] if not a.startswith("--")]
 rows = []
-for d in sorted(os.listdir(os.path.join(HERE, "seeded"))):
-    if only and not any(d.startswith(o) for o in only):
-        continue
+jobs = int(os.environ.get("SEED_JOBS", "1"))
+
+
+def one(d):
     sd = os.path.join(HERE, "seeded", d)
-    if not os.path.isdir(sd):
-        continue
     meta = json.load(open(os.path.join(sd, "meta.json")))
     pid = meta["property"]
     tmp = tempfile.mkdtemp(prefix="seedrun_")
@@ -40,8 +39,17 @@ for d in sorted(os.listdir(os.path.join(HERE, "seeded"))):
     meta["what_was_run"] = ("git -C /repo apply patch.diff; ./check %s --tier quick; git -C /repo checkout -- ." % pid) if on_repo else \
         ("patch applied to a scratch copy of /repo's package (tools/seedmatrix.py); CIJ_REPO=<copy> ./check %s --tier quick" % pid)
     json.dump(meta, open(os.path.join(sd, "meta.json"), "w"), indent=1)
-    rows.append((d, p.returncode, failed))
-    print("%-8s exit=%d %s" % (d, p.returncode, "; ".join(failed)[:200]), flush=True)
+    print("%-8s exit=%d with-input=%d %s" % (d, p.returncode, len(viol) - nofi, "; ".join(failed)[:200]), flush=True)
+    return (d, p.returncode, failed)
+
+
+todo = [d for d in sorted(os.listdir(os.path.join(HERE, "seeded"))) if os.path.isdir(os.path.join(HERE, "seeded", d)) and (not only or any(d.startswith(o) for o in only))]
+if jobs > 1 and not on_repo:
+    from concurrent.futures import ThreadPoolExecutor
+    with ThreadPoolExecutor(jobs) as ex:
+        rows = list(ex.map(one, todo))
+else:
+    rows = [one(d) for d in todo]
 mp = os.path.join(HERE, "seeded", "MATRIX.json")
 old = {r["seed"]: r for r in (json.load(open(mp)) if os.path.exists(mp) and only else [])}
 for a, b, c in rows:
